@@ -17,9 +17,6 @@ open GM
 /-- the panic-capable constructs that are not guarded in a syntactically recognisable way, each with the reason it
 cannot fire -/
 def reviewed : List (String × String) := [
-  ("cmd.buildRunner: $1.MustGetRunner", "shipped wiring: C19 (self configuration valid) — a broken wiring fails every run, not input-dependent"),
-  ("cmd.buildRunner: $1.MustGetStepValidateParamsExist", "as above"),
-  ("cmd.buildRunner: $1.MustGetStepValidateServicesExist", "as above"),
   ("imports.imports.Alias: index $1[len($1)-1]", "strings.Split never returns an empty slice"),
   ("regex.Match: index $1[$2]", "i ranges over SubexpNames, FindStringSubmatch has that length after MatchString succeeded"),
   ("resolver.NonStringPrimitiveResolver.ResolveArg: exporter.MustExport", "only after Supports: non-string primitive"),
@@ -42,8 +39,9 @@ def recognisedGuards : List String :=
    "index by a range key into a slice made with that length", "index by a sort callback argument",
    "index by the counter of a loop bounded by len of the same slice", "index by the key of a range over the same slice",
    "index from the end under a length check", "index found by a search in the same slice, known to be non-negative",
-   "index by SubexpIndex of a declared group into the non-nil submatch of the same expression", "Must call in a function used only by package-level initialisers", "slice from one past a strings index of the same string",
-   "slice past a prefix under an equality or HasPrefix check", "type assertion in comma-ok form"]
+   "index by SubexpIndex of a declared group into the non-nil submatch of the same expression", "Must call in a function used only by package-level initialisers", "Must getter of the tool's own generated container", "slice from one past a strings index of the same string",
+   "slice past a prefix under an equality or HasPrefix check", "type assertion in comma-ok form",
+   "unsigned index under a bound check against the length of the same slice"]
 
 /-- **every panic-capable construct of the tool is guarded in a recognised way or is one of the reviewed ones** — the
 inventory is regenerated with go/types on every run; restructuring guarded code changes nothing, a new unguarded
